@@ -44,6 +44,12 @@ CHECKS = {
  "C23": dict(level="model_checking", design="4/C23",
    text="Invariant StateAgreesWithQueue (Quiescent => queued<=>pending, running<=>active, paused/ended => no task) of Requestor.tla checked exhaustively, including a busy-worker start that keeps the request queued; at the quiescent end of every replayed environment script (cancels, pauses, unpauses, failures, hook errors, third-peer messages, at queued / pre-load / waiting / in-hook / idle points) the real node's PeerState(p).Diagnostics() must be empty, reported state and task-queue membership must agree and the connection protection of an ended request must be gone (RequestorOracle.tla C23Problems).",
    note=TB + "; requestor side only in this check; the responder side of the statement (Stats() of the allocator, incoming request states) is exercised by the C05/C15 checks", technique="TLC exhaustive invariant + observation at quiescence of all replayed TLC scripts"),
+ "C11": dict(level="exploration", design="4/C11, 5",
+   text="Wire.tla defines the bounded v2 message space (all request types, priorities incl. int32 extremes and zero, 4 root CID kinds, selectors, 18 extension sets incl. null/nested/bytes payloads and the three standard extensions with boundary values, 14 status codes, 15 metadata sequences incl. empty and repeated links, blocks with CIDv0/CIDv1/identity hash/empty data, composite messages, streams of 2-3 messages) and the equivalence a round trip must preserve; TLC enumerates all 7 476 elements, the harness runs each through ToNet/FromNet/FromMsgReader, and TLC (WireOracle.tla) judges equivalence and stream order.",
+   note="TLC as enumerator and judge of a finite case analysis; byte-level fidelity of arbitrary leaf payloads is go-ipld-prime's DAG-CBOR codec (trusted); exhaustive only within the stated leaf sets", technique="TLC enumeration of the bounded message space + round trip through the real codec + TLC equivalence oracle"),
+ "C12": dict(level="exploration", design="4/C12, 5",
+   text="Partial: the 'all byte strings' quantifier cannot be enumerated by a TLA+ model. Covered: Wire.tla's catalogue of malformations of valid encodings (8 frame-level and 24 schema-level kinds, every cut position of the inner encoding and of the framed stream, every byte position overwritten with 2 (thorough 6) values) is enumerated by TLC; each is written to a fresh libp2p mocknet stream served by the real handleNewStream in a child process, followed by a control stream; TLC judges: no crash, later streams served, an error is a receive error with the stream reset, every proper truncation fails, a delivery carries only self-certified blocks and 16-byte request ids.",
+   note="only this catalogue, not arbitrary byte strings (fuzzing territory, outside this technique family; stated in DESIGN.md section 5)", technique="TLC enumeration of a malformation catalogue + replay against the real stream handler + TLC oracle"),
 }
 NA_REASON = "not built yet in this round (check under construction; see DESIGN.md section 4 for the plan)"
 def main():
